@@ -149,6 +149,13 @@ def fmt_taint_fragment(repo: Repo, rep):
                         tg, _ = cg.call_targets(f, e)
                         if any(_is_ast_compare(repo, t) for t in tg) and len(e.args) >= 2:
                             lab = "T"
+                    if isinstance(e, ast.Name):
+                        # `same = ast.dump(parse(a)) == ast.dump(parse(b))` (False in the SyntaxError handler), then `if not same:`
+                        vals = [def_value(d, e.id) for d in reaching_defs(cfg, cnd, e.id)]
+                        cmp_ = [v for v in vals if isinstance(v, ast.Compare) and len(v.ops) == 1 and isinstance(v.ops[0], ast.Eq) and (("ast.dump" in norm(v) and "parse" in norm(v)) or "literal_eval" in norm(v))]
+                        rest = [v for v in vals if v not in cmp_]
+                        if cmp_ and all(isinstance(v, ast.Constant) and v.value is False for v in rest):
+                            lab = "T"
                     if lab:
                         san.append((cnd, lab))
                 if san and edges_dominate(cfg, san, r):
